@@ -249,4 +249,25 @@ theorem C16_split_complete_prog (P : Sem.Params) (hp : Sem.AggPersistent P) (S :
       ∀ a, T' a ↔ Proofs.C16sem.extend (Sem.stdParams P) (fun v => v ∈ S.G0) S.syn T a :=
   split_complete_prog P hp S (splitCheck_sound S h1) pre post (ctxCheck_sound S pre post h2) T' hT'
 
+/-! non-vacuity of the executable checks: `h(X) :- p(X), q(X,Y), r(Y).` split into `__aux_1(X) :- q(X,Y), r(Y).` and
+`h(X) :- p(X), __aux_1(X).` next to a fact passes them, so the two theorems above apply to it -/
+namespace C16ex
+open Proofs.C16stm Sem
+def atomL (n : String) (vs : List String) : BLit := .lit (.pos, .sym (.fn n (vs.map Term.var) false))
+def S : Split :=
+  { line := 1, col := 1, head := .lit (.pos, .sym (.fn "h" [.var "X"] false)),
+    body := [atomL "p" ["X"], atomL "q" ["X", "Y"], atomL "r" ["Y"]],
+    new := [atomL "q" ["X", "Y"], atomL "r" ["Y"]], rest := [atomL "p" ["X"]], vs := ["X"], auxName := "__aux_1" }
+def ctx : Prog := [.rule 2 1 (.lit (.pos, .sym (.fn "p" [.sym (.num 1)] false))) []]
+set_option maxRecDepth 4000 in
+theorem check : splitCheck S = true ∧ ctxCheck S ctx [] = true := by
+  simp [splitCheck, ctxCheck, S, ctx, atomL, Split.G0, Split.Ga, Split.Gu, Split.auxB, Proofs.C16sem.auxLit,
+    Proofs.C16sem.auxAtomTerm, iffB, blitMem, blitEqb, litEqb, atomEqb, termsEqb, termEqb, bodyAvoids, blitAvoids,
+    atomAvoids, headAvoids, nameSig, bodyScoped, blitScoped, atomScoped, stdHeadGlobals, bodyGlobals, blitGlobals,
+    litVars, litTerms, Atom.terms, Term.vars, BLit.vars, BLit.terms, Head.vars, Head.terms, Proofs.C09sem.stmAvoids]
+example (P : Params) (hp : AggPersistent P) (T : Interp) (hT : Stable (stdParams P) (ctx ++ S.orig :: []) T) :
+    Stable (stdParams P) (ctx ++ S.auxRule :: S.updRule :: []) (Proofs.C16sem.extend (stdParams P) (fun v => v ∈ S.G0) S.syn T) :=
+  C16_split_sound_prog P hp S ctx [] check.1 check.2 T hT
+end C16ex
+
 end NgoVerif
